@@ -3,7 +3,114 @@
 I = "guppylang-internals/src/guppylang_internals/"
 _core = I + "compiler/core.py"
 
+_xc = I + "compiler/expr_compiler.py"
+_sc = I + "compiler/stmt_compiler.py"
+_lc = I + "checker/linearity_checker.py"
+
+_bld = I + "cfg/builder.py"
+_cfg = I + "cfg/cfg.py"
+
+_dec = "guppylang/src/guppylang/decorator.py"
+
+_obj = I + "tracing/object.py"
+
+_uc = I + "checker/unitary_checker.py"
+
 M = {
+    "C24": [
+        ("_check_assign: the assigned value is not visited", _uc,
+         "        if node.value is not None:\n            self.visit(node.value)\n\n    def visit_AnnAssign", "        pass\n\n    def visit_AnnAssign", "R-C24.4"),
+        ("_check_assign: rejects outside dagger as well", _uc,
+         "        if UnitaryFlags.Dagger in self.flags:\n            raise GuppyError(InvalidUnderDagger(node, \"Assignment\"))",
+         "        if self.flags:\n            raise GuppyError(InvalidUnderDagger(node, \"Assignment\"))", "R-C24.4"),
+        ("benign: _check_assign with a guard clause", _uc,
+         "        if node.value is not None:\n            self.visit(node.value)\n\n    def visit_AnnAssign", "        if node.value is None:\n            return\n        self.visit(node.value)\n\n    def visit_AnnAssign", None),
+    ],
+    "C21": [
+        ("reflected fallback called on self", _obj,
+         "            return other.__getattr__(reverse_method)(self)", "            return self.__getattr__(reverse_method)(other)", "R-C21.3"),
+        ("reflected fallback keeps the operand order", _obj,
+         "            return other.__getattr__(reverse_method)(self)", "            return other.__getattr__(reverse_method)(other)", "R-C21.3"),
+        ("reflected fallback uses the same method name", _obj,
+         "            return other.__getattr__(reverse_method)(self)", "            return other.__getattr__(f.__name__)(self)", "R-C21.3"),
+        ("reflected fallback tried first", _obj,
+         "        # First try the method on `self`\n        with suppress(Exception):\n            return f(self, other)\n", "", "R-C21.3"),
+        ("direct method called with swapped operands", _obj,
+         "        with suppress(Exception):\n            return f(self, other)", "        with suppress(Exception):\n            return f(other, self)", "R-C21.3"),
+        ("benign: table lookup with the reverse table tested first", _obj,
+         "        if f.__name__ in binary_table:\n            reverse_method, display_name = binary_table[f.__name__]\n            left_ty, right_ty = self._ty, other._ty\n        else:\n            reverse_method, display_name = reverse_binary_table[f.__name__]\n            left_ty, right_ty = other._ty, self._ty",
+         "        if f.__name__ in reverse_binary_table:\n            reverse_method, display_name = reverse_binary_table[f.__name__]\n            left_ty, right_ty = other._ty, self._ty\n        else:\n            reverse_method, display_name = binary_table[f.__name__]\n            left_ty, right_ty = self._ty, other._ty", None),
+    ],
+    "C22": [
+        ("_use_wire: copyable values rejected on second use", _obj,
+         "        if self._used and not self._ty.copyable:\n            use = self._used", "        if self._used:\n            use = self._used", "R-C22.3"),
+        ("_use_wire: the check looks at droppable instead of copyable", _obj,
+         "        if self._used and not self._ty.copyable:\n            use = self._used", "        if self._used and not self._ty.droppable:\n            use = self._used", "R-C22.3"),
+        ("_use_wire: registry entry kept", _obj,
+         "                state.unused_undroppable_objs.pop(self._id)", "                state.unused_undroppable_objs.get(self._id)", "R-C22.3"),
+        ("_use_wire: registry popped for droppable values", _obj,
+         "            if not self._ty.droppable:\n                state = get_tracing_state()\n                state.unused_undroppable_objs.pop(self._id)",
+         "            if self._ty.droppable:\n                state = get_tracing_state()\n                state.unused_undroppable_objs.pop(self._id)", "R-C22.3"),
+        ("benign: _use_wire with the accepting branch first", _obj,
+         "        if self._used and not self._ty.copyable:\n            use = self._used",
+         "        reusable = self._ty.copyable or not self._used\n        if not reusable:\n            use = self._used", None),
+    ],
+    "C15": [
+        ("overload: variants registered in reverse", _dec,
+         "        func_ids = []\n        for func in funcs:", "        func_ids = []\n        for func in reversed(funcs):", "R-C15.1"),
+        ("overload: variants sorted by id", _dec,
+         "            func_ids.append(func.id)\n", "            func_ids.append(func.id)\n        func_ids.sort(key=str)\n", "R-C15.1"),
+        ("overload: duplicates dropped through a set", _dec,
+         "        funcs = list(funcs)\n        if len(funcs) < 2:", "        funcs = list(dict.fromkeys(funcs))\n        if len(funcs) < 1:", "R-C15.1"),
+        ("overload: new variants inserted at the front", _dec,
+         "            func_ids.append(func.id)", "            func_ids.insert(0, func.id)", "R-C15.1"),
+        ("benign: overload collects the ids with a comprehension after validating", _dec,
+         "            func_ids.append(func.id)\n", "        func_ids = [variant.id for variant in funcs]\n", None),
+    ],
+    "C08": [
+        ("dead code dummy-linked from the block before the jumping one", _bld,
+         "                prev_bb, bb_opt = bb_opt, self.visit(node, bb_opt, jumps)", "                bb_opt = self.visit(node, bb_opt, jumps)", "R-C08.4"),
+        ("dead code continues in the jumping block", _bld,
+         "                bb_opt = self.cfg.new_bb()\n                self.cfg.dummy_link(prev_bb, bb_opt)", "                bb_opt = prev_bb", "R-C08.4"),
+        ("pruning forgets the predecessor list", _bld,
+         "                        bb.successors.remove(succ)\n                        succ.predecessors.remove(bb)", "                        bb.successors.remove(succ)", "R-C08.4"),
+        ("pruning iterates the list it mutates", _bld,
+         "                for succ in list(bb.successors):", "                for succ in bb.successors:", "R-C08.4"),
+        ("dummy edges into live blocks kept on the source side", _bld,
+         "                for pred in bb.dummy_predecessors:\n                    pred.dummy_successors.remove(bb)\n                bb.dummy_predecessors = []", "                bb.dummy_predecessors = []", "R-C08.4"),
+        ("fall-through end linked before reachability is computed but exit never marked", _bld,
+         "            if final_bb.reachable:\n                self.cfg.exit_bb.reachable = True", "            if final_bb.reachable:\n                pass", "R-C08.4"),
+        ("update_reachable stops at the first level", _cfg,
+         "                for succ in bb.successors:\n                    queue.add(succ)", "                for succ in bb.successors:\n                    succ.reachable = True", "R-C08.4"),
+        ("benign: visit_stmts with renamed locals and the fresh block made by a helper expression", _bld,
+         "            if bb_opt is None:\n                bb_opt = self.cfg.new_bb()\n                self.cfg.dummy_link(prev_bb, bb_opt)",
+         "            if bb_opt is None:\n                dead_bb = self.cfg.new_bb()\n                self.cfg.dummy_link(prev_bb, dead_bb)\n                bb_opt = dead_bb", None),
+    ],
+    "C07": [
+        ("read of xs[i]: index recompiled although bound", _xc,
+         "            if subscript.item not in self.dfg:\n                self.dfg[subscript.item] = self.visit(subscript.item_expr)",
+         "            self.dfg[subscript.item] = self.visit(subscript.item_expr)", "R-C07.4"),
+        ("store to xs[i]: guard inverted", _sc,
+         "            if subscript.item not in self.dfg:\n                self.dfg[subscript.item] = self.expr_compiler.compile(",
+         "            if subscript.item in self.dfg:\n                self.dfg[subscript.item] = self.expr_compiler.compile(", "R-C07.4"),
+        ("store to xs[i].y: setitem value taken before the new value is stored", _sc,
+         "            self.dfg[lhs.place] = port\n            # Look up `xs[i]` again since it was mutated by the assignment above, then\n            # compile a call to `__setitem__` to actually mutate\n            self.dfg[subscript.setitem_call.value_var] = self.dfg[subscript]",
+         "            self.dfg[subscript.setitem_call.value_var] = self.dfg[subscript]\n            self.dfg[lhs.place] = port", "R-C07.4"),
+        ("benign: read of xs[i] with renamed walrus and early return", _xc,
+         "        if subscript := contains_subscript(node.place):\n            if subscript.item not in self.dfg:\n                self.dfg[subscript.item] = self.visit(subscript.item_expr)\n            self.dfg[subscript] = self.visit(subscript.getitem_call)\n        return self.dfg[node.place]",
+         "        sub = contains_subscript(node.place)\n        if sub is None:\n            return self.dfg[node.place]\n        index_tmp = sub.item\n        if index_tmp not in self.dfg:\n            self.dfg[index_tmp] = self.visit(sub.item_expr)\n        self.dfg[sub] = self.visit(sub.getitem_call)\n        return self.dfg[node.place]", None),
+    ],
+    "C06": [
+        ("re-borrow of a borrowed parameter rejected", _lc,
+         "        if is_inout_var(node.place) and not is_inout_arg:", "        if is_inout_var(node.place):", "R-C06.2"),
+        ("borrowed parameter may be consumed", _lc,
+         "        if is_inout_var(node.place) and not is_inout_arg:", "        if is_inout_var(node.place) and is_inout_arg:", "R-C06.2"),
+        ("use recorded as MOVE whatever the kind", _lc,
+         "                self.scope.use(x, node, use_kind)", "                self.scope.use(x, node, UseKind.MOVE)", "R-C06.2"),
+        ("benign: visit_PlaceNode with the re-borrow test inlined", _lc,
+         "        is_inout_arg = use_kind == UseKind.BORROW\n        if is_inout_var(node.place) and not is_inout_arg:",
+         "        reborrowed = use_kind is UseKind.BORROW\n        is_inout_arg = reborrowed\n        if not reborrowed and is_inout_var(node.place):", None),
+    ],
     "C05": [
         ("tracker: patched add_node not restored", _core,
          "    finally:\n        Hugr.add_node = hugr_add_node  # type: ignore[method-assign]", "    finally:\n        pass", "R-C05.2"),
